@@ -27,7 +27,7 @@ CLAIMED = {
  "C10": ("proof", "importer modelled as a total state machine: proved that Add and the decompressor never reach a Go panic for any node on any stack, import(export t) = t for persisted AVL trees, delta codec lossless; export streams (plain/compressed), import of genuine and hostile streams (result class, visibility, later hashes) compared with the model", "5.C10", T_PROOF),
  "C11": ("proof", "AVL preservation by set/remove with exact stored heights and sizes, fib(h+2) <= n, lookup by key = (rank, value), lookup by rank = i-th pair: proved; height/size/rank answers compared with the model, AVL real-valued bound and storage-read counts (cache 0) checked on the implementation", "5.C11", T_PROOF),
  "C12": ("proof", "the raw storage after every step is decoded by the model's proved-inverse decoder and audited against the model's retained versions (every retained tree rebuilt through root markers and child links equals the reference, no unreachable node, index = latest pairs); orphan-diff exactness proved", "5.C12", T_PROOF),
- "C13": ("proof", "round-trip theorems for the node codec (new and legacy child references, mode bits, range checks), legacy nodes, fast nodes, zig-zag varints, length-prefixed bytes, Go's uvarint with overflow checks, and decoded length <= input length; the model's total decoders are compared with MakeNode / MakeLegacyNode / fastnode.DeserializeNode / the varint and bytes decoders / the reference-root reader on structured, mutated and random inputs (result class and every decoded field), and the library-written database is decoded and audited by the model after every step (C12 machinery)", "5.C13", T_PROOF),
+ "C13": ("proof", "round-trip theorems for the node codec (new and legacy child references, mode bits, range checks), legacy nodes, fast nodes, zig-zag varints, length-prefixed bytes, Go's uvarint with overflow checks, and decoded length <= input length; the model's total decoders are compared with MakeNode / MakeLegacyNode / fastnode.DeserializeNode / the varint and bytes decoders / the reference-root reader on structured, mutated and random inputs (result class and every decoded field), the library-written database is decoded and audited by the model after every step (C12 machinery), and conversely the model's independent encoder writes a database image of a retained version which the library opens, reads, proves, exports and extends with further commits (hashes compared)", "5.C13", T_PROOF),
  "C14": ("proof", "version-machine theorems (query agreement, commit onto an existing version succeeds iff same hash and changes nothing, new commit appends exactly one version, out-of-range loads fail and leave the machine unchanged) + correctness of the first-version binary search under root-key monotonicity; tied by correspondence with every version number queried", "5.C14", T_PROOF),
  "C15": ("proof", "apply_changeset: for all ordered trees under the sharing invariant of path-copying writes, applying the extracted change set (new leaves merged in key order with vanished leaves) to the predecessor's contents gives the version's contents; changeset_effect: each key once, ascending, a set wins over a deletion. TraverseStateChanges / SaveChangeSet are compared with this executable specification on every history (repeated writes of a key, set-then-remove, rewrites of identical values, no-op versions) and by replaying extracted change sets into an empty tree", "5.C15", T_PROOF),
  "C17": ("fault_enumeration", "single-fault enumeration: every storage call (Get, Has, iterator creation/step, batch Set/Delete/Write) of every operation fails in turn; outcome must be an error or the fault-free answer, and the store left by a failed write must reopen to before/after; reference answers come from the model", "5.C17", "fault enumeration on the implementation, reference answers from the Lean model"),
